@@ -50,6 +50,7 @@ theorem expNet_inet {c : Case} (hd : ∀ n, c.dial ≠ .unix n) (hr : ∀ s, c.d
   | raw s => exact absurd h (hr s)
   | none => cases hs : c.scheme <;> simp [Case.expNet, Scheme.stream, Scheme.sock, h, hs]
   | host a b => cases hs : c.scheme <;> simp [Case.expNet, Scheme.stream, Scheme.sock, h, hs]
+  | bracketed x => cases hs : c.scheme <;> simp [Case.expNet, Scheme.stream, Scheme.sock, h, hs]
 
 theorem sock_cases (s : Scheme) : s.sock = sTcp ∨ s.sock = sUdp := by
   cases s <;> simp [Scheme.sock]
@@ -112,6 +113,13 @@ theorem dial_model_meets_spec (c : Case) : specDial c (modelDial c) = true := by
     · simp [Case.target, hd]
     · simp [Case.expDial, hd]
     · exact expNet_inet (by simp [hd]) (by simp [hd])
+  | bracketed x =>
+    have wd := f.dial
+    simp only [hd, Dial.wf] at wd
+    refine spec_inet w (hb := .v6 x) (by simpa [Host.wf] using wd) (defaultPort_facts c.scheme) ?_ ?_ ?_
+    · simp [Case.target, hd, Host.bare]
+    · simp [Case.expDial, hd, Host.bare]
+    · exact expNet_inet (by simp [hd]) (by simp [hd])
 
 /-! ### the pure helpers -/
 
@@ -173,6 +181,14 @@ theorem form_model_meets_spec (c : FormCase) : specForm c (modelForm c) = true :
     simp only [hd, Dial.wf, Bool.and_eq_true] at wd
     have := getDialAddr_override (Dial.render (.host c.host c.port)) c.dflt wd.1 wd.2
     simp [this, dialNetworkTcpOrUnix, join_no_at _ wd.1]
+  | bracketed x =>
+    simp only [hd, Dial.wf] at wd
+    have rb : Dial.render (.bracketed x) = '[' :: x ++ [']'] := rfl
+    have hj := join_no_at (h := .v6 x) c.dflt (by simpa [Host.wf] using wd)
+    simp only [Host.bare] at hj
+    have hg := getDialAddr_bracketed (Dial.render (.host c.host c.port)) c.dflt wd
+    simp only [List.cons_append] at hg
+    simp [rb, hg, dialNetworkTcpOrUnix, hj]
   | unix n =>
     have ru : Dial.render (.unix n) = '@' :: n := rfl
     simp [ru, getDialAddr_unix, dialNetworkTcpOrUnix, hasAtPrefix]
